@@ -341,7 +341,9 @@ func runC04Mixed(c *Ctx, scAny any) {
 			})
 		}
 	})
-	end := c.Drive(func() bool { return wl.done() && closedOK == wantClosed && (!sc.CloseEnd || wantClosed == len(wl.states)) })
+	end := c.Drive(func() bool {
+		return wl.done() && closedOK == wantClosed && (!sc.CloseEnd || wantClosed == len(wl.states))
+	})
 	if c.Failed() {
 		return
 	}
